@@ -1046,7 +1046,7 @@ def write_generic(repo, outfile, write_ref, units_fn, header, end, ref_path, ref
 
 def write(repo=None, outfile=None, write_ref=False):
     repo = repo or os.environ.get("VERIF_REPO", "/repo")
-    outfile = outfile or os.path.join(VERIF, "coq", "gen", "SparsityGen.v")
+    outfile = outfile or os.path.join(os.environ.get("VERIF_GEN_OUT") or os.path.join(VERIF, "coq", "gen"), "SparsityGen.v")
     return write_generic(repo, outfile, write_ref, lambda r: units(r, {}), HEADER, END, REF, "SparsityGen.ref.v",
                          "SparsityGen.v — by translate/gen_sparsity.py", os.path.join(repo, HPP) + " , " + os.path.join(repo, SPH))
 
